@@ -196,7 +196,13 @@ def eval_case(c):
     try:
         with dask.config.set(scheduler=cnt, num_workers=c.get("workers", 2)):
             if model in ("EOF", "SparsePCA", "ExtendedEOF", "ExtendedEOF-pca", "POP", "OPA"):
-                m = build(False).fit(dd, "time")
+                if c.get("lazy_weights"):
+                    # user weights that are themselves dask-backed (loaded lazily, or derived from the data)
+                    W = (1.0 / dd.std("time")) if c["lazy_weights"] == "derived" else xr.DataArray(np.linspace(0.5, 2.0, nlat * nlon).reshape(nlat, nlon), dims=("lat", "lon"),
+                                                                                                 coords={"lat": da.lat, "lon": da.lon}).chunk({"lat": 1})
+                    m = build(False).fit(dd, "time", weights=W)
+                else:
+                    m = build(False).fit(dd, "time")
                 target = m
                 if c.get("rotate"):
                     target = S_.EOFRotator(n_modes=2, power=c["rotate"], compute=False, max_iter=8).fit(m)
@@ -238,7 +244,12 @@ def eval_case(c):
         return True, f"refused by dask: {e}"
     # equality with the in-memory fit
     if model in ("EOF", "SparsePCA", "ExtendedEOF") and not msgs and not c.get("rotate"):
-        ref = build(True).fit(da, "time")
+        if c.get("lazy_weights"):
+            Wm = (1.0 / da.std("time")) if c["lazy_weights"] == "derived" else xr.DataArray(np.linspace(0.5, 2.0, nlat * nlon).reshape(nlat, nlon), dims=("lat", "lon"),
+                                                                                         coords={"lat": da.lat, "lon": da.lon})
+            ref = build(True).fit(da, "time", weights=Wm)
+        else:
+            ref = build(True).fit(da, "time")
         if c.get("rotate"):
             ref = S_.EOFRotator(n_modes=2, power=c["rotate"], max_iter=8, rtol=1e9).fit(ref)
         tol = 1e-8 if model == "EOF" and c.get("solver") == "full" else 1e-4
@@ -272,6 +283,8 @@ def bounded_cases(tier, seed):
         for model in ("EOF", "MCA"):
             cases.append(dict(model=model, chunks="samples", scheduler="sync", rotate=power, keep=True))
     cases.append(dict(model="EOF", chunks="samples", scheduler="sync", solver="full", keep=True))
+    for lw in ("chunked", "derived"):
+        cases.append(dict(model="EOF", chunks="samples", scheduler="sync", lazy_weights=lw, keep=True))
     for model in ("CPCCA", "CCA", "RDA", "ExtendedEOF-pca"):
         cases.append(dict(model=model, chunks="samples", scheduler="sync", keep=True))
     cases.append(dict(model="CPCCA", chunks="samples", scheduler="sync", use_pca=True, keep=True))
@@ -288,7 +301,7 @@ def bounded_cases(tier, seed):
 
 def run_bounded(res, tier, seed):
     for c in bounded_cases(tier, seed):
-        sig = {k: c.get(k) for k in ("model", "chunks", "scheduler", "rotate", "twice", "use_pca")}
+        sig = {k: c.get(k) for k in ("model", "chunks", "scheduler", "rotate", "twice", "use_pca", "lazy_weights")}
         try:
             ok, detail = eval_case(c)
         except Exception as e:  # noqa: BLE001
